@@ -64,6 +64,11 @@ TARGETED = [
     '@use "m" as *; @use "n" as *; a { b: $zeta $alpha $yy $aa; }',
     '@use "m" with ($zeta: 1); a { b: m.$zeta; }',
     '@use "fw" with ($zz-not: 1, $aa-not: 2); a { b: c; }',
+    # files reached by path: anything remembered per path across compilations (parsed files, resolved URLs, module
+    # instances) shows when an earlier compilation saw other contents under the same paths (stale-files histories)
+    '@import "m"; @import "n"; a { b: $zeta $alpha $yy zf() bf(); @include zm; }',
+    '@use "sass:meta"; a { @include meta.load-css("m"); } @use "n"; b { c: n.$yy n.yf(); }',
+    '@use "m"; @use "fw2"; a { b: m.$zeta fw2.$own fw2.$yy m.af(); @include m.am; }',
     ".zz {x: y} .aa {@extend .zz} .mm {@extend .zz} .bb {@extend .zz} .yy {@extend .zz} .cc {@extend .zz; @extend .aa}",
     "%p {x: y} .zz, .aa {@extend %p} .mm .nn {@extend %p} a:not(%p) {z: w} .qq {@extend .mm}",
     ".a .zz, .b .aa {x: y} .c .d {@extend .zz; @extend .aa} .e {@extend .d} .f {@extend .c}",
@@ -153,13 +158,58 @@ def programs(sh):
             s["text"] = it["input"]
             out.append(s)
     for t in TARGETED:
-        if '@use "m"' in t or '@use "fw' in t or '@use "n"' in t:
+        if '@use "m"' in t or '@use "fw' in t or '@use "n"' in t or '@import "m"' in t or 'load-css("m")' in t:
             files = dict(MODFILES)
             files["/p/main.scss"] = t
             out.append({"entry": "/p/main.scss", "files": files, "_targeted": True})
         else:
             out.append({"text": t, "_targeted": True})
+    # generated programs (the C03 generator), in both syntaxes
+    from ..gen import ast, program
+    g = Rng(sh.seed, "C02-programs", sh.shard)
+    for _ in range(120):
+        prog = program.program(g, g.range(10, 30))
+        if g.chance(0.5):
+            out.append({"text": ast.to_scss(prog), "syntax": "scss", "_generated": True})
+        else:
+            out.append({"text": ast.to_sass(prog), "syntax": "sass", "_generated": True})
     return out
+
+
+def stale(x, rng):
+    """the same request with other contents under the same paths / the same entry name: every number changed, a rule
+    appended, (sometimes) a file emptied. Compiling it first must not influence the result of x."""
+    def mut(t):
+        if not isinstance(t, str):
+            return t
+        k = rng.below(6)
+        if k == 0:
+            return ".stale { from: stale; }\n"
+        t2 = re.sub(r"(?<![\w#.$-])(\d+)(?![\w.])", lambda m: str(int(m.group(1)) + 7), t)
+        return t2 + "\n.stale { from: stale; }\n$stale-var: 1;\n"
+    y = clean(x)
+    if y.get("files"):
+        y["files"] = {p: (mut(c) if (p != y.get("entry") or rng.chance(0.5)) else c) for p, c in y["files"].items()}
+    if y.get("text") is not None:
+        y["text"] = mut(y["text"])
+    return y
+
+
+def other_options(x, rng):
+    y = clean(x)
+    for _ in range(rng.range(1, 3)):
+        k = rng.below(5)
+        if k == 0:
+            y["quiet"] = not y.get("quiet", False)
+        elif k == 1:
+            y["unicode"] = not y.get("unicode", True)
+        elif k == 2:
+            y["charset"] = not y.get("charset", True)
+        elif k == 3:
+            y["syntax"] = rng.choice(["scss", "sass", "css"])
+        else:
+            y["load_paths"] = ["/p/other", "/p"]
+    return y
 
 
 def clean(s):
@@ -253,6 +303,22 @@ def run(sh):
         if key(rs[-1]) != ref_of(x):
             report(sh, "history:interner-preload", x, ref_of(x), key(rs[-1]), history=hist)
 
+    sfam = [x for x in targeted if x.get("files")]
+    for k, x in enumerate(sfam):
+        if k % sh.nshards != sh.shard:
+            continue
+        hist = [stale(x, rng), stale(x, rng)]
+        rs = w.history(hist + [clean(x)])
+        sh.ev(3)
+        sh.count("history_runs")
+        sh.count("history_fixed-family:stale-files")
+        if isinstance(rs, dict):
+            sh.inconc("history-request-failed:" + ",".join(sorted(rs.keys())))
+            continue
+        sh.nontrivial(["fixed-family", "stale", json.dumps(clean(x), sort_keys=True)])
+        if key(rs[-1]) != ref_of(x):
+            report(sh, "history:stale-files", x, ref_of(x), key(rs[-1]), history=hist)
+
     round_ = 0
     procs_done = 0
     while not sh.expired():
@@ -262,8 +328,16 @@ def run(sh):
             # (h)/(r): single-thread histories
             x = rng.choice(targeted) if rng.chance(0.5) else rng.choice(general)
             ref = ref_of(x)
-            hk = rng.below(6)
-            if hk == 0:
+            hk = rng.below(9)
+            if hk == 6 or (hk == 8 and x.get("files")):
+                hist = [stale(x, rng) for _ in range(rng.range(1, 3))]
+                if rng.chance(0.3):
+                    hist.append(clean(rng.choice(general)))
+                hname = "stale-files"
+            elif hk >= 7:
+                hist = [other_options(x, rng) for _ in range(rng.range(1, 3))]
+                hname = "other-options-prefix"
+            elif hk == 0:
                 hist = [clean(rng.choice(general)) for _ in range(rng.range(1, 40))]
                 hname = "corpus-prefix"
             elif hk == 1:
